@@ -5,5 +5,5 @@ JAR=$(ls /usr/share/maven/lib/maven-artifact-3.x.jar /usr/share/java/maven3-arti
 [ -z "$JAR" ] && { echo "tool=absent pairs=0 disagreements=0 (skipped: maven-artifact jar not found)"; exit 0; }
 mkdir -p .work/mavenconf
 javac -cp "$JAR" -d .work/mavenconf conformance/maven/Cmp.java 2>.work/mavenconf/javac.log || { cat .work/mavenconf/javac.log; exit 2; }
-./.work/vcheck -dumpref maven -dumpmax "${1:-700}" > .work/maven_pairs.txt || exit 2
+"${VERIF_BIN:-.work}/vcheck" -dumpref maven -dumpmax "${1:-700}" > .work/maven_pairs.txt || exit 2
 java -cp "$JAR:.work/mavenconf" Cmp < .work/maven_pairs.txt
